@@ -6,7 +6,7 @@ _SIM = ("Trusts the chain simulator (harness/chain: real PocketCoreApp over MemD
         "application / pos stores. ")
 
 CHECKS = {
-    "C20": c("appsmod", "TestC20", dict(checks=260, timeout=400), dict(checks=1500, shards=14, timeout=1500),
+    "C20": c("appsmod", "TestC20", dict(checks=700, timeout=600), dict(checks=1500, shards=14, timeout=1500),
              technique="property-based invariant checking over generated transaction histories run through the real application (chain simulator); "
                        "invariant recomputed after every Commit from raw application records and the pool's account balance",
              design_ref="DESIGN.md §7 C20",
@@ -15,7 +15,7 @@ CHECKS = {
                         "staked/unstaking application records read by raw prefix iteration. Exploration only: bounded history length and world size, no absence claim.",
              level_note=_SIM + "Applications are never jailed, slashed or force-unstaked by any transaction path, so the (legacy) force-unstake branch is not reached. "
                         "Only heights after the codec upgrade (history starts at height 4) are explored."),
-    "C23": c("appsmod", "TestC23", dict(checks=110, timeout=400), dict(checks=900, shards=14, timeout=1500),
+    "C23": c("appsmod", "TestC23", dict(checks=400, timeout=600), dict(checks=900, shards=14, timeout=1500),
              technique="property-based testing of generated edit-stake transactions against before/after record comparison (one-sided oracle from the "
                        "documented immutability rules), inside generated chain histories with feature activation heights inside the history",
              design_ref="DESIGN.md §7 C23",
@@ -26,7 +26,7 @@ CHECKS = {
              level_note=_SIM + "Judges only what the property names (address, public key, jailed, status, stake not lowered, output-address and delegator "
                         "authorisation, waiting nodes, failed edit leaves the record unchanged); chains / service URL / same-bin (VEDIT) outcomes are generated but not judged. "
                         "Crafted encodings (explicit empty output-address field) are not generated."),
-    "C28": c("appsmod", "TestC28", dict(checks=110, timeout=400), dict(checks=900, shards=14, timeout=1500),
+    "C28": c("appsmod", "TestC28", dict(checks=400, timeout=600), dict(checks=900, shards=14, timeout=1500),
              technique="property-based testing of generated application stake / transfer requests inside chain histories: per-transaction before/after comparison of "
                        "raw application records, staked index, pool and balances against independently restated admission rules and a math/big restatement of the relay allowance",
              design_ref="DESIGN.md §7 C28",
